@@ -2,18 +2,25 @@
 import itertools
 import wire
 from wire import mk_fmt, cells
+from curtsies.formatstring import fmtstr
 from props.common import chunks_for, reply_fmt, guarded, PALETTE
 
 PROP = "C09"
 MODULES = ["Curtsies.Properties.C09"]
 RULE = ("exhaustive: every layout of 0..3 runs with run lengths 0..3 (distinct characters, run i formatted with palette "
-        "entry i) x 9 `new` values (empty str, fmtstr(''), FmtStr() without chunks, 1-char str, multi-char str with a "
+        "entry i) x 9 `new` values (+3 plain strs containing SGR sequences on the layouts of <=2 runs and <=3 characters) (empty str, fmtstr(''), FmtStr() without chunks, 1-char str, multi-char str with a "
         "space, 2-char one-run FmtStr, 2-run FmtStr, 3-run FmtStr with an empty middle run, FmtStr with explicit-False "
         "attribute) x every 0 <= start <= end <= len+2 and end omitted; append of every `new` to every layout; plus "
         "seeded random cases with up to 6 runs of length 0..5 and random multi-run `new`. non-trivial = distinct "
         "(f, new, start, end) where something is inserted or a non-empty range is deleted")
-ASSUMPTIONS = ["plain str arguments contain no ESC (fmtstr(str) would parse them; covered by C17)",
-               "0 <= start <= end (the property's range); negative offsets are outside the statement"]
+ASSUMPTIONS = ["0 <= start <= end (the property's range); negative offsets and end < start are outside the statement "
+               "(for end < start the code's negative slice index wraps; the driver answers bad-op there)",
+               "plain str operands containing ESC '[' are IN the domain: the property says a str's characters come out "
+               "unformatted; the code parses them (open finding D27) - the theorems carry Operand.EscFree"]
+LEVEL_NOTE = ("C09_splice/insert/append: full strength for FmtStr operands; for plain-str operands C09_*_operand_partial "
+              "(hypothesis: no ESC '[' in the str) - the full statement C09_full_statement is refuted by C09_D27_witness "
+              "(open finding D27). trusted: Lean kernel + propext/Classical.choice/Quot.sound, the hand-written models "
+              "(FmtStr core, escape parser, Operand), extract.py, the wire codec; CPython is modelled not verified")
 
 NEWS = [
     ("s", ""),
@@ -26,6 +33,8 @@ NEWS = [
     ("f", [("X", {"fg": 33}), ("", {"bold": True}), ("YZ", {"underline": True})]),
     ("f", [("W", {"bold": False, "fg": 31})]),
 ]
+# plain str operands containing a complete SGR sequence (finding D27): str(red('X')), a bare sequence, a reset inside
+ESC_NEWS = [("s", "\x1b[31mX\x1b[39m"), ("s", "\x1b[31m"), ("s", "a\x1b[0mb")]
 
 
 def all_layouts():
@@ -45,7 +54,7 @@ def mk_cases(ctx):
     for lens in all_layouts():
         ch = chunks_for(lens)
         n = sum(lens)
-        for new in NEWS:
+        for new in NEWS + (ESC_NEWS if len(lens) <= 2 and n <= 3 else []):
             for start in range(0, n + 3):
                 cases.append(dict(op="splice", f=ch, new=new, start=start, end=None))
                 for end in range(start, n + 3):
@@ -59,7 +68,10 @@ def mk_cases(ctx):
         lens = tuple(r.randint(0, 5) for _ in range(r.randint(0, 6)))
         ch = chunks_for(lens, alphabet=alpha, shift=r.randint(0, 6))
         n = sum(lens)
-        if r.random() < 0.3:
+        q = r.random()
+        if q < 0.04:
+            new = ("s", r.choice(["\x1b[31mX\x1b[39m", "\x1b[1m", "p\x1b[44mq\x1b[49m", "\x1b[0m\x1b[32myz", "ab\x1b[", "\x1b[5;31mK"]))
+        elif q < 0.3:
             new = ("s", "".join(r.choice("xyz \t\n") for _ in range(r.randint(0, 4))))
         else:
             nl = tuple(r.randint(0, 3) for _ in range(r.randint(0, 3)))
@@ -73,12 +85,17 @@ def mk_cases(ctx):
     return cases
 
 
+def enc_operand(new):
+    """a plain str goes over the wire RAW ('s' + code points): the model converts it as the code does"""
+    k, v = new
+    return ("s" + wire.enc_text(v)) if k == "s" else ("f" + wire.enc_chunks(v))
+
+
 def line(c):
-    nw = wire.enc_chunks(new_chunks(c["new"]))
     if c["op"] == "splice":
-        return "splice %s %s %d %s" % (wire.enc_chunks(c["f"]), nw, c["start"], wire.enc_optint(c["end"]))
+        return "spliceop %s %s %d %s" % (wire.enc_chunks(c["f"]), enc_operand(c["new"]), c["start"], wire.enc_optint(c["end"]))
     if c["op"] == "append":
-        return "append %s %s" % (wire.enc_chunks(c["f"]), nw)
+        return "appendop %s %s" % (wire.enc_chunks(c["f"]), enc_operand(c["new"]))
     raise KeyError(c["op"])
 
 
@@ -122,6 +139,7 @@ def snapshot(x):
 
 
 def oracle(c):
+    """-> None, or (what, footprint)"""
     exp = expected(c)
     f = mk_fmt(c["f"])
     new = mk_new(c["new"])
@@ -130,19 +148,35 @@ def oracle(c):
     try:
         r = call(c, f, new)
     except Exception as e:  # noqa: BLE001
-        return "%s raised %s" % (c["op"], type(e).__name__)
-    got = cells(r)
+        return ("%s raised %s" % (c["op"], type(e).__name__), None)
+    try:    # observing the result must not raise either
+        got, rs, rl = cells(r), r.s, len(r)
+        after_f, after_new, chunks_f = snapshot(f), snapshot(new), wire.fmt_chunks(f)
+    except Exception as e:  # noqa: BLE001
+        return ("%s: reading the result raised %s" % (c["op"], type(e).__name__), None)
+    unchanged = after_f == before_f and chunks_f == [(s, dict(a)) for s, a in c["f"]] and after_new == before_new
     if got != exp:
-        return "%s: characters/formatting differ: got %r expected %r" % (c["op"], got, exp)
+        fp = None
+        if c["new"][0] == "s" and "\x1b[" in c["new"][1] and unchanged:
+            # D27 footprint: the only deviation is that the str operand was parsed by fmtstr() (its escape sequences
+            # vanish / format its characters); the splice of THAT FmtStr is exact
+            cs = wire.cells_of_chunks(c["f"])
+            pc = cells(fmtstr(c["new"][1]))
+            start = len(cs) if c["op"] == "append" else c["start"]
+            end = start if c.get("end") is None else c["end"]
+            parsed = cs[:start] + pc + cs[end:]
+            if got == parsed and rs == "".join(ch for ch, _ in parsed) and rl == len(parsed):
+                fp = "D27"
+        return ("%s: characters/formatting differ: got %r expected %r" % (c["op"], got, exp), fp)
     text = "".join(ch for ch, _ in exp)
-    if r.s != text:
-        return "%s: .s is %r, list splice gives %r" % (c["op"], r.s, text)
-    if len(r) != len(exp):
-        return "%s: len() is %d, number of characters is %d" % (c["op"], len(r), len(exp))
-    if snapshot(f) != before_f or wire.fmt_chunks(f) != [(s, dict(a)) for s, a in c["f"]]:
-        return "%s: operand changed: f was %r, is %r" % (c["op"], before_f[:3], snapshot(f)[:3])
-    if snapshot(new) != before_new:
-        return "%s: operand changed: new was %r, is %r" % (c["op"], before_new, snapshot(new))
+    if rs != text:
+        return ("%s: .s is %r, list splice gives %r" % (c["op"], rs, text), None)
+    if rl != len(exp):
+        return ("%s: len() is %d, number of characters is %d" % (c["op"], rl, len(exp)), None)
+    if after_f != before_f or chunks_f != [(s, dict(a)) for s, a in c["f"]]:
+        return ("%s: operand changed: f was %r, is %r" % (c["op"], before_f[:3], after_f[:3]), None)
+    if after_new != before_new:
+        return ("%s: operand changed: new was %r, is %r" % (c["op"], before_new, after_new), None)
     return None
 
 
@@ -178,9 +212,9 @@ def check(ctx):
     ctx.tie("C09/splice", cases, line, impl)
     for c in cases:
         w = oracle(c)
-        ctx.count(c, nontrivial=nontrivial(c), tag=tag(c))
+        ctx.count(c, nontrivial=nontrivial(c), tag=tag(c) + ("/esc-str" if c["new"][0] == "s" and "\x1b" in c["new"][1] else ""))
         if w:
-            ctx.violation(w, c, footprint(c, w))
+            ctx.violation(w[0], c, w[1])
 
 
 def search(ctx):
@@ -192,7 +226,7 @@ def search(ctx):
         w = oracle(c)
         ctx.count(c, tag="search")
         if w:
-            ctx.violation(w, c, footprint(c, w))
+            ctx.violation(w[0], c, w[1])
             if len(ctx.violations) > 50:
                 return
 
